@@ -213,6 +213,18 @@ int vnacal_new_set_frequency_vector(vnacal_new_t *vnp,
 		frequency_vector[vnp->vn_frequencies - 1]) == -1) {
 	return -1;
     }
+    /*
+     * The measurement error vector was interpolated onto the current
+     * frequencies; it doesn't describe a different vector.
+     */
+    if (vnp->vn_m_error_vector != NULL && vnp->vn_frequencies_valid &&
+	    memcmp((void *)vnp->vn_frequency_vector, (void *)frequency_vector,
+		vnp->vn_frequencies * sizeof(double)) != 0) {
+	_vnacal_error(vcp, VNAERR_USAGE, "vnacal_new_set_frequency_vector: "
+		"the frequency vector cannot be changed after "
+		"vnacal_new_set_m_error");
+	return -1;
+    }
     (void)memcpy((void *)vnp->vn_frequency_vector, (void *)frequency_vector,
 	    vnp->vn_frequencies * sizeof(double));
     vnp->vn_frequencies_valid = true;
